@@ -48,9 +48,10 @@ class Compile:
             return f"panic|{m.group(1)}|{msg[:120]}"
         if self.sig:
             return f"signal|{self.sig}"
-        m = re.search(r"(Cranelift Error|Error defining function|verifier error)[^\n]*", t)
+        m = re.search(r"(Cranelift Error|Error defining function|verifier error)[^\n]*(\n[^\n]*)?", t)
         if m:
-            return "internal|" + re.sub(r"\d+", "N", m.group(0))[:120]
+            msg = re.sub(r"\bv\d+", "vN", m.group(0).replace("\n", " "))
+            return "internal|" + re.sub(r"\d+", "N", msg)[:160]
         if self.rc == 0 and self.obj is None:
             return "exit0_without_object"
         return f"rc{self.rc}"
